@@ -1,5 +1,6 @@
 //! Checks decided by the sequential engine E1: C02, C05 (sequential part), C04 (sequential part),
 //! C06, C14.
+use crate::conc::Budget;
 use crate::model::*;
 use crate::runner::*;
 use crate::seq::{run_map_case, Fail, Oracles, Stats};
@@ -197,12 +198,15 @@ fn c05_shard(ctx: &Ctx, out: &mut ShardOut) {
     let b = super::concchecks::budget_for(ctx.tier, ctx.shard_seed(5));
     super::concchecks::C05C.run(ctx, &pool, 21, ctx.share(ctx.by_tier(200, 8_000)) as u32, &b, out);
     super::concchecks::C05R.run(ctx, &pool, 22, ctx.share(ctx.by_tier(120, 6_000)) as u32, &b, out);
+    let lb = Budget { single: 0, double: 0, coarse2: 0, tapes: ctx.by_tier(24, 200) as usize, tape_seed: ctx.shard_seed(94) };
+    super::concchecks::C05L.run(ctx, &pool, 23, ctx.share(ctx.by_tier(96, 3_000)) as u32, &lb, out);
 }
 
 fn c05_replay(sub: &str, case: &Value) -> Result<(), CaseFail> {
     match sub {
         "conc" => super::concchecks::C05C.replay(&crate::sched::Pool::new(), case, &super::concchecks::budget_for(Tier::Thorough, 1)),
         "conc-resize" => super::concchecks::C05R.replay(&crate::sched::Pool::new(), case, &super::concchecks::budget_for(Tier::Thorough, 1)),
+        "conc-long" => super::concchecks::C05L.replay(&crate::sched::Pool::new(), case, &Budget { single: 0, double: 0, coarse2: 0, tapes: 200, tape_seed: 1 }),
         _ => replay_seq("C05", sub, case, C05_OR),
     }
 }
